@@ -234,13 +234,14 @@ def changes_of(f: Facts):
     return res
 
 
-def worker_overtaken(chg, x, learned, src) -> bool:
+def worker_overtaken(chg, x, learned, src, p=None) -> bool:
     """shape of the worker-thread hand-off defect: the value last learned came with an event, was
     made by a change on a worker thread, and a newer change of x (controller write or loop-thread
     set) happened before that event was sent"""
     if src is None or src[0] != "event":
         return False
-    made = [c for c in chg if c[1] == x and c[2] == learned and c[0] <= src[1]]
+    # the change this event reports: the recipient's own writes are never reported to it
+    made = [c for c in chg if c[1] == x and c[2] == learned and c[0] <= src[1] and (p is None or c[3] != p)]
     if not made or not made[-1][4]:
         return False
     return any(c[1] == x and made[-1][0] < c[0] <= src[1] and c[2] != learned for c in chg)
@@ -304,7 +305,7 @@ def oracle_c12(f: Facts) -> List[Tuple[str, str]]:
                 cur = d["values"][x]
                 if learned != cur:
                     sig = "C12:quiescent-learned-differs"
-                    if worker_overtaken(chg, x, learned, src):
+                    if worker_overtaken(chg, x, learned, src, p):
                         sig = WORKER_SIG
                     elif src is not None and src[0] == "event":
                         # an event that arrived after a later own acknowledged write of another value
@@ -340,7 +341,7 @@ def oracle_c12(f: Facts) -> List[Tuple[str, str]]:
                 if any(s_[0].startswith("C12:originator-stale") or s_[0] in ("C12:quiescent-learned-differs", WORKER_SIG) for s_ in bad):
                     continue  # already reported under the first form
                 sig = "C12:stale-value-learned-after-subscription"
-                if worker_overtaken(chg, x, learned, src):
+                if worker_overtaken(chg, x, learned, src, p):
                     sig = WORKER_SIG
                 elif src[0] == "event":
                     t_ev = next(e[0] for e in f.log[p] if e[1] == "event" and e[-1] == src[1])
